@@ -302,9 +302,11 @@ class Builder:
 # running jobs
 
 class Job:
-    def __init__(self, target, binary, args, unit, timeout=3600, env=None):
+    def __init__(self, target, binary, args, unit, timeout=3600, env=None, fuzz=False, replay_binary=None):
         self.target, self.binary, self.args, self.unit, self.timeout = target, binary, args, unit, timeout
         self.env = env or {}
+        self.fuzz = fuzz                      # libFuzzer binary: different command line, report via FUZZ_REPORT
+        self.replay_binary = replay_binary    # binary that replays this job's failures (default: the job's own)
         self.frag = None
         self.rc = None
         self.log = None
@@ -317,10 +319,16 @@ def run_job(job, outdir):
     if os.path.exists(frag):
         os.remove(frag)
     env = dict(os.environ); env.update(RUN_ENV); env.update(job.env)
+    argv = [job.binary] + job.args + ['--out', frag, '--unit', job.unit]
+    if job.fuzz:
+        corpus = os.path.join(outdir, job.unit + '_corpus')
+        os.makedirs(corpus, exist_ok=True)
+        env.update({'FUZZ_REPORT': frag, 'FUZZ_CORPUS': corpus})
+        argv = [job.binary] + job.args + ['-artifact_prefix=' + os.path.join(outdir, job.unit + '_'), corpus]
     t0 = time.time()
     with open(logp, 'w') as lf:
         try:
-            r = subprocess.run([job.binary] + job.args + ['--out', frag, '--unit', job.unit], stdout=lf, stderr=subprocess.STDOUT,
+            r = subprocess.run(argv, stdout=lf, stderr=subprocess.STDOUT,
                                env=env, timeout=job.timeout)
             job.rc = r.returncode
         except subprocess.TimeoutExpired:
@@ -474,7 +482,7 @@ def do_check(prop, P, tier, seed):
         j = by_target.get(hdr.get('target'))
         if not j:
             continue
-        res, out = replay_once(j.binary, prop, path, j.env)
+        res, out = replay_once(j.replay_binary or j.binary, prop, path, j.env)
         saved_run += 1
         if res == 'fail':
             case = [l for l in open(path, errors='replace') if not l.startswith('#')]
@@ -533,7 +541,7 @@ def do_check(prop, P, tier, seed):
         if P.get('no_replay'):
             results = ['fail'] * 3
         else:
-            results = [replay_once(j.binary, prop, path, j.env)[0] for _ in range(3)]
+            results = [replay_once(j.replay_binary or j.binary, prop, path, j.env)[0] for _ in range(3)]
         if all(r == 'fail' for r in results):
             hit = None
             for kf in known:
